@@ -161,6 +161,10 @@ func checkC04(p *core.Program, r *core.Report) {
 	// ---------- R5 constant-offset string slicing
 	r.Rule("R5", "every s[k:], s[:k], s[k] with a constant offset on a string/[]byte in the evaluation packages is guarded by a length / non-empty / prefix test on the same value or listed")
 	r.Count("const_offset_string_sites", c04R5(p, r, fns, "R5", c04SliceAllowed))
+
+	// ---------- R6 constant index / slice bound on general slices
+	r.Rule("R6", "every constant index or slice bound on a slice in the evaluation packages is within a length established on every path (range analysis over len() comparisons, producers with a known minimum length) or listed")
+	r.Count("const_index_sites", constIndexRule(p, r, fns, "R6", c04IndexAllowed, true))
 }
 
 func rootFn(f *ssa.Function) *ssa.Function {
@@ -904,4 +908,49 @@ func c04R5(p *core.Program, r *core.Report, fns []*ssa.Function, rule string, al
 		}
 	}
 	return n
+}
+
+// frozen table for R6
+var c04IndexAllowed = map[string]string{
+	"excellent/tools.FindContextRefsInTemplate/p[0]": "the callback is only invoked by ContextReference/DotLookup visiting in excellent.Parse with the path of a context reference, which starts with the top-level name (never empty)",
+}
+
+func constIndexRule(p *core.Program, r *core.Report, fns []*ssa.Function, rule string, allowed map[string]string, skipArgs bool) int {
+	installRegexpResolver(p)
+	n := 0
+	per := map[string]int{}
+	for _, fn := range fns {
+		args := sliceParam(fn)
+		for _, site := range constIndexSites(fn) {
+			if skipArgs && args != nil && site.base == ssa.Value(args) {
+				continue
+			}
+			n++
+			k := core.FuncName(rootFn(fn)) + "/" + canonShort(site.base) + site.expr
+			per[k]++
+			key := k
+			if per[k] > 1 {
+				key = fmt.Sprintf("%s#%d", k, per[k])
+			}
+			lb, why := sliceLenLB(site.instr.Block(), site.base)
+			if lb >= site.need {
+				r.OK(rule, key, p.Pos(site.instr.Pos()), fmt.Sprintf("len >= %d (%s)", lb, why))
+				continue
+			}
+			if reason, ok := allowed[key]; ok {
+				r.OK(rule, key, p.Pos(site.instr.Pos()), "listed: "+reason)
+				continue
+			}
+			r.Bad(rule, key, p.Pos(site.instr.Pos()), fmt.Sprintf("%s%s needs len >= %d but only len >= %d is established on every path: index out of range panic", canonShort(site.base), site.expr, site.need, lb))
+		}
+	}
+	return n
+}
+
+func canonShort(v ssa.Value) string {
+	s := canon(v)
+	if len(s) > 60 {
+		s = s[:60] + "…"
+	}
+	return s
 }
